@@ -24,6 +24,7 @@
 //!       sst <path>                    one sst: final-block setsum, recomputed setsum, entries
 //!       verify <dir> <passes> [opts]  LsmVerifier::open + verify() `passes` times
 //!       build <path> <k:ts:v>...      SstBuilder over the given entries; prints the setsum
+//!       mv <path>                     ManifestVerifier::verify on one fragment
 //!       mklog <path> <k:ts:v>...      a write-ahead log holding the entries (sst::LogBuilder)
 //!       logsum <path> <batches>       sst::log: WriteBatches (entries k:ts:vlen, ',' inside a batch,
 //!                                     ';' between batches; a value is vlen bytes of ts%251) appended
@@ -300,6 +301,16 @@ fn tool() {
                 match res {
                     Ok(s) => writeln!(buf, "BUILT {s}").unwrap(),
                     Err(e) => writeln!(buf, "BUILT err {}", err_class(&e)).unwrap(),
+                }
+            }
+            "mv" => {
+                // lsmtk's stand-alone ManifestVerifier on one fragment
+                let path = PathBuf::from(t[1]);
+                let r = std::panic::catch_unwind(|| ManifestVerifier::open().and_then(|v| v.verify(&path)));
+                match r {
+                    Ok(Ok(v)) => writeln!(buf, "MV ok {}", v.len()).unwrap(),
+                    Ok(Err(e)) => writeln!(buf, "MV err {}", err_class(&e)).unwrap(),
+                    Err(_) => writeln!(buf, "MV PANIC").unwrap(),
                 }
             }
             "mklog" => {
